@@ -127,6 +127,15 @@ func c20PairClasses(r *ev.Rand) map[string][]devino {
 			add("ino-too-large", d, i)
 		}
 	}
+	// compact pairs whose encoding has only high bits and a small number: the
+	// neighbourhood of wherever a table for the other pairs starts counting
+	for _, maj := range []uint64{1, 1024, 2047, 2048, 2049, 4095} {
+		for _, min := range []uint64{0, 1, 4095} {
+			for i := uint64(0); i <= 600; i++ {
+				add("compact-high-major-small-ino", mkdev(maj, min), i)
+			}
+		}
+	}
 	for k := 0; k < 4000; k++ {
 		add("random-compact", mkdev(uint64(r.Intn(4096)), uint64(r.Intn(4096))), r.U64()&(1<<39-1))
 		add("random-any", r.U64(), r.U64())
